@@ -34,6 +34,20 @@ class Oracle:
     def set(self, key, val):
         self.exp[key] = {val}
 
+    def lose(self, v, how):
+        self.alive.discard(v)
+        self.lost += 1
+        self.hit("graceful" if how == "c.stop" else "abrupt")
+        if self.lost >= 2:
+            self.hit("two_members_lost")
+        if any(o == v for (o, _) in self.route.values()):
+            self.hit("primary_owner_lost")
+        if any(v in b for (_, b) in self.route.values()):
+            self.hit("backup_owner_lost")
+        if v == min(self.alive | {v}):
+            self.hit("coordinator_lost")
+        self.after = True
+
     def observe(self, op, reply):
         f = op.split()
         name, a = f[0], f[1:]
@@ -49,19 +63,7 @@ class Oracle:
             self.route[a[1]] = (int(p.split(",")[-1]), [int(x) for x in b.split(",")] if b != "-" else [])
             return None
         if name in ("c.stop", "c.kill"):
-            v = int(a[0])
-            self.alive.discard(v)
-            self.lost += 1
-            self.hit("graceful" if name == "c.stop" else "abrupt")
-            if self.lost >= 2:
-                self.hit("two_members_lost")
-            if any(o == v for (o, _) in self.route.values()):
-                self.hit("primary_owner_lost")
-            if any(v in b for (_, b) in self.route.values()):
-                self.hit("backup_owner_lost")
-            if v == min(self.alive | {v}):
-                self.hit("coordinator_lost")
-            self.after = True
+            self.lose(int(a[0]), name)
             return None
         if name == "c.converge":
             if reply == "not-converged":
@@ -89,14 +91,8 @@ class Oracle:
             outer, inner = a[1:sep], a[sep + 1:]
             r_outer, st = reply.split(" inner=")
             if inner[0] in ("c.kill", "c.stop") and st != "-":
-                v = int(inner[1])
-                self.alive.discard(v)
-                self.lost += 1
-                self.after = True
-                self.hit("abrupt" if inner[0] == "c.kill" else "graceful")
+                self.lose(int(inner[1]), inner[0])
                 self.hit("killed_during_put" if outer[0] == "c.put" else "killed_during_delete")
-                if self.lost >= 2:
-                    self.hit("two_members_lost")
             key = outer[4]
             if outer[0] == "c.put":
                 if r_outer == "ok":
